@@ -210,8 +210,12 @@ def check_prefix(case, spec=None):
             return res
         f = files[0]
         raw = open(f, "rb").read()
-        full = json.loads(raw.decode())
         key = os.path.basename(f)[: -len(".cache")]
+        # the implementation's own reading of the complete entry is the reference (the file format is its business)
+        full = CacheManager(cache_dir=cache_dir).load_cache(key)
+        if not isinstance(full, dict):
+            res.fail("complete-entry-not-loaded", "complete entry is a hit", inputs=inputs)
+            return res
         stride = case.get("stride", 1)
         for cut in range(0, len(raw) + 1, stride):
             open(f, "wb").write(raw[:cut])
@@ -228,7 +232,9 @@ def check_prefix(case, spec=None):
                     res.fail("prefix-loaded-as-different-content", "partial file is a miss", prefix_len=cut, total=len(raw), inputs=inputs)
                     break
         e2e = case.get("e2e_stride", max(1, len(raw) // 12))
-        for cut in list(range(0, len(raw), e2e)) + [len(raw) - 1]:
+        # record boundaries (after a newline) are where a line-oriented format would parse a partial file
+        boundaries = [i + 1 for i, ch in enumerate(raw[:-1]) if ch == 10][:40]
+        for cut in sorted(set(list(range(0, len(raw), e2e)) + [len(raw) - 1] + boundaries)):
             open(f, "wb").write(raw[:cut])
             n_eval += 1
             try:
